@@ -84,15 +84,20 @@ static const ClassTpl CLASSES[] = {
 };
 
 // random legal-looking placement of a material class; returns "" if the attempt is not a legal position
-static std::string random_class_fen(const ClassTpl& c, bool strong_white, std::mt19937_64& rng)
+// cluster: most pieces are put within two squares of a drawn focus square, so that the geometric relations the specialised
+// evaluators test (blockade squares, adjacent files, king next to pawn, same diagonal) occur far more often than by uniform placement
+static std::string random_class_fen(const ClassTpl& c, bool strong_white, std::mt19937_64& rng, bool cluster = false)
 {
     char b[64];
     memset(b, 0, sizeof b);
+    const int focus = int(rng() % 64);
     auto place = [&](char ch) {
+        const bool near = cluster && rng() % 10 < 8;
         for (int t = 0; t < 200; ++t)
         {
             int s = int(rng() % 64);
             if (b[s]) continue;
+            if (near && std::max(std::abs(s % 8 - focus % 8), std::abs(s / 8 - focus / 8)) > 2) continue;
             if ((ch == 'P' || ch == 'p') && (s < 8 || s >= 56)) continue;
             b[s] = ch;
             return true;
@@ -103,6 +108,54 @@ static std::string random_class_fen(const ClassTpl& c, bool strong_white, std::m
     if (!place('K') || !place('k')) return "";
     for (const char* p = c.strong; *p; ++p) if (!place(col(*p, strong_white))) return "";
     for (const char* p = c.weak; *p; ++p) if (!place(col(*p, !strong_white))) return "";
+    if (cluster && rng() % 2)
+    {
+        // blockade shapes: a second pawn on the file next to the most advanced one and behind it, the weak king on the square in
+        // front of the most advanced pawn or beside it on the other pawn's file, the weak bishop on a diagonal through the other of
+        // those two squares (the geometric preconditions of the drawn-fortress rules)
+        const int up = strong_white ? 8 : -8;
+        const char sp = col('P', strong_white), wk = col('K', !strong_white), wb = col('B', !strong_white);
+        auto adv = [&](int s) { return strong_white ? s / 8 : 7 - s / 8; };
+        std::vector<int> pawns;
+        for (int s = 0; s < 64; ++s) if (b[s] == sp) pawns.push_back(s);
+        if (!pawns.empty())
+        {
+            std::sort(pawns.begin(), pawns.end(), [&](int x, int y) { return adv(x) > adv(y); });
+            int p1 = pawns[0];
+            int f2 = p1 % 8 + (rng() % 2 ? 1 : -1);
+            if (f2 < 0 || f2 > 7) f2 = p1 % 8 + (f2 < 0 ? 1 : -1);
+            if (pawns.size() >= 2 && rng() % 4)
+            {
+                int back = 1 + int(rng() % 2);
+                int r2 = p1 / 8 - (strong_white ? back : -back);
+                int t = r2 * 8 + f2;
+                if (r2 >= 1 && r2 <= 6 && !b[t]) { b[pawns[1]] = 0; b[t] = sp; }
+            }
+            int block1 = p1 + up, block2 = (p1 / 8) * 8 + f2;
+            if (block1 >= 0 && block1 < 64)
+            {
+                int kt = rng() % 2 ? block1 : block2, other = kt == block1 ? block2 : block1;
+                if (!b[kt] || b[kt] == wk)
+                {
+                    for (int s = 0; s < 64; ++s) if (b[s] == wk) b[s] = 0;
+                    b[kt] = wk;
+                    if (rng() % 4)
+                    {
+                        std::vector<int> diag;
+                        for (int s = 0; s < 64; ++s)
+                            if (!b[s] && s != other && std::abs(s % 8 - other % 8) == std::abs(s / 8 - other / 8)) diag.push_back(s);
+                        bool has = false;
+                        for (int s = 0; s < 64; ++s) has = has || b[s] == wb;
+                        if (has && !diag.empty())
+                        {
+                            for (int s = 0; s < 64; ++s) if (b[s] == wb) { b[s] = 0; break; }
+                            b[diag[rng() % diag.size()]] = wb;
+                        }
+                    }
+                }
+            }
+        }
+    }
     std::string f;
     for (int r = 7; r >= 0; --r)
     {
@@ -226,7 +279,7 @@ int cmd_eval_mirror(const Args& a)
     for (const ClassTpl& c : CLASSES)
         for (int k = 0; k < per_class; ++k)
         {
-            std::string fen = random_class_fen(c, rng() % 2, rng);
+            std::string fen = random_class_fen(c, rng() % 2, rng, k % 2 == 1);
             if (fen.empty()) { continue; }
             Position p(fen);
             emit(p, c.name);
